@@ -518,6 +518,12 @@ impl C01 {
                 (m, format!("gen seed={seed} size={size} features={:#x} major={}..={}", cfg.features, cfg.major_min, cfg.major_max))
             };
             admit::admit(&mut m);
+            let origin = if w.chance(4) {
+                extremes(&mut m, w);
+                format!("{origin} +extremes")
+            } else {
+                origin
+            };
             let misplaced = if w.chance(25) { admit::misplace_names(&mut m, &mut |n| w.below(n)) } else { 0 };
             let mask = match w.below(10) {
                 0 => 0,
@@ -541,6 +547,54 @@ impl C01 {
         // eight unencodable draws in a row do not happen; fall back to a corpus class rather than to nothing
         let (name, bytes) = corpus::CORPUS[0];
         (format!("corpus {name}"), bytes.to_vec(), true)
+    }
+}
+
+/// Values at the limits of the format: a 255-dimension array type, a Utf8 constant of (nearly) 65535 bytes, a long
+/// class name, immediates at their extremes.
+fn extremes(m: &mut refclass::Sem, w: &mut Rng) {
+    use refclass::sem::{Const, Field, Insn};
+    use refclass::JStr;
+    match w.below(4) {
+        0 => {
+            let dims = *w.pick(&[254usize, 255]);
+            let mut d = vec![b'['; dims];
+            d.extend_from_slice(if w.chance(50) { b"I" } else { b"Ljava/lang/Object;" });
+            m.fields.push(Field { access: 0x0002, name: JStr::from_str("manyDims"), desc: JStr(d), ..Default::default() });
+        }
+        1 => {
+            let len = *w.pick(&[65535usize, 65534, 32768, 4096]);
+            let text = JStr(vec![b'x'; len]);
+            if let Some(c) = m.methods.iter_mut().filter_map(|me| me.code.as_mut()).next() {
+                c.insns.insert(0, Insn::Ldc(Const::String(text)));
+                c.insns.insert(1, Insn::Simple(refclass::op::POP));
+                // every index stored in the code moves by two
+                crate::c02::for_each_index(c, &mut |i| *i += 2);
+                c.max_stack = c.max_stack.max(1);
+            } else {
+                m.source_file = Some(text);
+            }
+        }
+        2 => {
+            let mut n = String::from("p");
+            for i in 0..w.range(50, 400) {
+                n.push_str(&format!("/seg{i}"));
+            }
+            m.interfaces.push(JStr::from_str(&n));
+        }
+        _ => {
+            if let Some(c) = m.methods.iter_mut().filter_map(|me| me.code.as_mut()).next() {
+                let pop = Insn::Simple(refclass::op::POP);
+                let add: Vec<Insn> = vec![Insn::SiPush(i16::MIN), pop.clone(), Insn::SiPush(i16::MAX), pop.clone(), Insn::BiPush(i8::MIN), pop.clone(), Insn::Ldc(Const::Int(i32::MIN)), pop.clone(), Insn::Ldc(Const::Long(i64::MIN)), Insn::Simple(88), Insn::Iinc(0, i16::MIN), Insn::Iinc(65535, i16::MAX)];
+                let n = add.len();
+                for (k, i) in add.into_iter().enumerate() {
+                    c.insns.insert(k, i);
+                }
+                crate::c02::for_each_index(c, &mut |i| *i += n);
+                c.max_stack = c.max_stack.max(2);
+                c.max_locals = 65535;
+            }
+        }
     }
 }
 
@@ -1045,6 +1099,9 @@ const LENIENT: [&str; 29] = [
 
 fn workload_probes(m: &Sem, inputs: &[Input], p: &Plan, st: &mut RunStats) {
     st.probe(if p.origin.starts_with("corpus") { "w.corpus" } else { "w.generated" });
+    if p.origin.contains("+extremes") {
+        st.probe("w.extremes");
+    }
     st.probe_n("w.inputs", inputs.len() as u64);
     if m.module.is_some() {
         st.probe("w.module");
